@@ -117,15 +117,36 @@ pub enum Expr {
     Cmp(String, &'static str, T),
     /// comparison with a compound arithmetic side
     ArithCmp(Arith, &'static str, Arith),
+    /// comparison with the constant on the left: constant `op` variable
+    CmpL(String, &'static str, String),
     And(Box<Expr>, Box<Expr>),
     Or(Box<Expr>, Box<Expr>),
     Not(Box<Expr>),
 }
 
+pub fn mirror_op(op: &str) -> &'static str {
+    match op {
+        "<" => ">",
+        "<=" => ">=",
+        ">" => "<",
+        ">=" => "<=",
+        "!=" => "!=",
+        _ => "=",
+    }
+}
+
 impl Expr {
+    /// `c op ?v` read as `?v op' c`
+    pub fn mirrored(&self) -> Option<Expr> {
+        match self {
+            Expr::CmpL(c, op, v) => Some(Expr::Cmp(v.clone(), mirror_op(op), T::Const(c.clone()))),
+            _ => None,
+        }
+    }
     pub fn text(&self) -> String {
         match self {
             Expr::Cmp(v, op, t) => format!("?{} {} {}", v, op, t.text()),
+            Expr::CmpL(c, op, v) => format!("{} {} ?{}", T::Const(c.clone()).text(), op, v),
             Expr::ArithCmp(a, op, b) => format!("{} {} {}", a.text(), op, b.text()),
             Expr::And(a, b) => format!("({}) && ({})", a.text(), b.text()),
             Expr::Or(a, b) => format!("({}) || ({})", a.text(), b.text()),
@@ -150,7 +171,7 @@ impl Expr {
             }
         }
         match self {
-            Expr::Cmp(..) => self.text(),
+            Expr::Cmp(..) | Expr::CmpL(..) => self.text(),
             Expr::ArithCmp(a, op, b) => format!("{} {} {}", a.text_min(), op, b.text_min()),
             Expr::And(a, b) => format!("{} && {}", wrap(a, 1), wrap(b, 2)),
             Expr::Or(a, b) => format!("{} || {}", wrap(a, 0), wrap(b, 1)),
@@ -168,6 +189,7 @@ impl Expr {
                     out.push(w.clone());
                 }
             }
+            Expr::CmpL(_, _, v) => out.push(v.clone()),
             Expr::ArithCmp(a, _, b) => {
                 a.vars(out);
                 b.vars(out);
